@@ -283,7 +283,7 @@ Section IO.
     | ALit v => val_to_json cast_types v
     | APath _ pt => let* p := mk_path T id0 pt in path_to_spec p
     end.
-  Definition arg1_raw (a : arg1) : res pyval := match a with ALit v => Ok v | APath _ _ => Err OtherExc end.
+  Definition arg1_raw (a : arg1) : res pyval := match a with ALit v => Ok v | APath _ _ => Err TypeError end.
   Definition cond1_to_json := cond_to_json arg1 arg1_to_json arg1_raw.
 
   (* ---- rules ---- *)
